@@ -23,7 +23,7 @@ ANCHORS = ["pyflyby._autoimp:symbol_needs_import", "pyflyby._autoimp:find_missin
 
 ROOTS = ["ta", "tb", "tc"]
 PARTS = ["ua", "ub", "uc"]
-KINDS = ["trip", "trip", "modsub", "miss", "prop", "mod", "plain", "pep562", "modprop"]
+KINDS = ["trip", "trip", "modsub", "miss", "prop", "mod", "plain", "pep562", "modprop", "anyeq"]
 
 
 # ---------------------------------------------------------------------------------------------
@@ -48,8 +48,10 @@ def gen_case(seed, i):
         cur = new(r.choice(["trip", "modsub", "mod", "miss", "prop", "pep562", "modprop"]))
         lvl = r.randrange(len(nss))
         nss[lvl][root] = cur
-        if r.random() < .25 and len(nss) > 1:                   # the same or another object further out
-            nss[r.randrange(len(nss))].setdefault(root, cur if r.random() < .5 else new())
+        if r.random() < .3 and len(nss) > 1:                    # the same or another object further out
+            q_ = r.random()
+            other = cur if q_ < .4 else (new("anyeq") if q_ < .7 else new())   # anyeq: non-module, permissive __eq__
+            nss[r.randrange(len(nss))].setdefault(root, other)
         for k in range(1, len(path) + 1):
             d = ".".join(path[:k])
             q = r.random()
@@ -180,6 +182,19 @@ def build(case, log):
                "__len__", "__call__", "__iter__", "__repr__", "__str__"):
         setattr(ModSub, nm, Trip.__dict__[nm])
 
+    class AnyEq(Trip):
+        def __eq__(self, o):
+            rec("eq", object.__getattribute__(self, "_n"))
+            return True
+
+        def __ne__(self, o):
+            rec("ne", object.__getattribute__(self, "_n"))
+            return False
+
+        def __hash__(self):
+            rec("hash", object.__getattribute__(self, "_n"))
+            return 0
+
     class Miss(object):
         """records only failed lookups (__getattr__) and the value protocols"""
         def __init__(self, n):
@@ -233,6 +248,9 @@ def build(case, log):
             o = mk_prop_class(n, boxes[n])()
         elif k == "mod":
             o = types.ModuleType("plainmod%d" % n)
+        elif k == "anyeq":
+            # like unittest.mock.ANY: compares equal to everything; every use of ==, != or hash is recorded
+            o = AnyEq(n)
         elif k == "pep562":
             # a plain module whose attributes are all served by a module-level __getattr__ (PEP 562)
             o = types.ModuleType("pep562mod%d" % n)
@@ -265,7 +283,7 @@ def build(case, log):
     for n, sp in spec.items():
         k = sp["kind"]
         for a, t in sp["attrs"].items():
-            if k in ("trip", "modsub"):
+            if k in ("trip", "modsub", "anyeq"):
                 object.__getattribute__(objs[n], "_a")[a] = objs[t]
             elif k == "miss":
                 objs[n].__dict__[a] = objs[t]
@@ -279,7 +297,7 @@ def build(case, log):
 
 def recordable(kind, has_attr, name=None):
     """does the real object log getattr(o, a)?"""
-    if kind in ("trip", "modsub"):
+    if kind in ("trip", "modsub", "anyeq"):
         return True
     if kind in ("prop", "modprop"):
         return name in PARTS + ROOTS
